@@ -346,7 +346,7 @@ SECTIONS = {
     "nesting": _sec(enabled=B, max_nesting_depth=I(1, 8)),
     "srp": _sec(enabled=B, max_methods=I(1, 20), max_loc=I(5, 400), check_keywords=B),
     "magic-numbers": _sec(enabled=B, allowed_numbers=st.lists(st.sampled_from([0, 1, 2, 10, 1307, 1734, 1748, 100]), max_size=5, unique=True),
-                          max_small_integer=I(0, 20), ignore=GLOBS),
+                          max_small_integer=I(1, 20), ignore=GLOBS),
     "dry": _sec(enabled=B, min_duplicate_lines=I(2, 8), min_occurrences=I(2, 3), storage_mode=st.sampled_from(["memory", "tempfile"]), ignore=GLOBS),
     "stringly-typed": _sec(enabled=B, min_occurrences=I(2, 4), min_values_for_enum=I(2, 3), max_values_for_enum=I(4, 8), require_cross_file=B, ignore=GLOBS),
     "file-header": _sec(enabled=B, check_atemporal=B, ignore=GLOBS, mandatory_fields=st.just(["Purpose"])),
@@ -495,7 +495,7 @@ def run(ctx):
     mine = ctx.my_cells(mix_cells())
     done = ctx.each(mine, check)
     m["command X x all other sections disabled x key spelling"] = {"cells": len(mine), "done": done}
-    ctx.explore(mix_cases(), check, max_examples=ctx.n(15, 500), salt=15)
+    ctx.explore(mix_cases(), check, max_examples=ctx.n(10, 500), salt=15)
     ctx.stats.extra["ownership_table_checked_against_registry"] = True
 
 
